@@ -140,7 +140,7 @@ static std::string do_str(const std::string& api, const std::string& fmt,
 {
     bool use_cstr = api == "cfmt";
     F f = use_cstr ? nitro::format(fmt.c_str()) : nitro::format(fmt);
-    if ((api == "pct+more" || api == "copy+more") && !args.empty())
+    if ((api == "pct+more" || api == "copy+more" || api == "fork+more") && !args.empty())
     {
         // the text is rendered once before the last argument is added (to the same object, or to a copy of it):
         // the final rendering has to be that of all the arguments
@@ -159,6 +159,23 @@ static std::string do_str(const std::string& api, const std::string& fmt,
         {
             std::visit([&](auto&& x) { f % x; }, args.back()->v);
             return render("pct", f);
+        }
+        if (api == "fork+more")
+        {
+            // two copies of the partially filled object go their own ways: what is added to one (or rendered
+            // from it) has nothing to do with the other
+            F a = f;
+            a % std::string("<<sibling>>") % 12345;
+            try
+            {
+                (void)a.str();
+            }
+            catch (std::exception&)
+            {
+            }
+            F b = f;
+            std::visit([&](auto&& x) { b.args(x); }, args.back()->v);
+            return render("pct", b);
         }
         F g = f;
         std::visit([&](auto&& x) { g % x; }, args.back()->v);
